@@ -13,6 +13,9 @@ use super::{Command, CommandContext};
 /// hold them in a field.
 pub use super::context::{ShellRequest, ShellStream};
 
+/// The real handle types (their module is private), so harness-defined futures can hold them in a field.
+pub use super::executor::{AbortHandle, JoinHandle};
+
 /// Outcome of one [`Command::run_task`] call, mirroring the private `TaskState`.
 #[derive(Clone, Copy, Debug, PartialEq, Eq)]
 pub enum PollOutcome {
